@@ -87,7 +87,7 @@ def check(ctx):
     top = find("repack_dsk[out] = Task(out, tuple, List(*[_unpack(i) for i in args]))", uc, nested=False)
     ctx.ob("TAB.top-level", uc, "the arguments themselves are rebuilt as a tuple, in order", bool(top))
     rp = base.func("unpack_collections.repack")
-    ok = bool(find("dsk[collections_token] = DataNode(collections_token, results)", rp)) and any(Pat("simple_get(dsk, out)").match(r.value) is not None for r in returns(rp)) and bool(find("dsk = repack_dsk.copy()", rp))
+    ok = bool(find("dsk[collections_token] = DataNode(collections_token, results)", rp)) and (all(Pat("simple_get(dsk, out)").match(r.value) is not None for r in returns(rp)) and bool(returns(rp))) and bool(find("dsk = repack_dsk.copy()", rp))
     ctx.ob("DELEG.repack.function", rp, "repack(results) evaluates the repack graph on the results", ok)
     rs = returns(uc)
     ok = len(rs) == 1 and unparse(rs[0].value) == "(collections2, repack)" and bool(find("collections2 = list(collections)", uc))
@@ -138,7 +138,7 @@ def check(ctx):
             bad = {p_: (b.get(p_), v) for p_, v in want.items() if b.get(p_) != v}
             ctx.ob("REBUILD.metadata", c, f"{cname}._rebuild passes {what} to the new collection ({', '.join(f'{k}={v}' for k, v in want.items())})", not bad, "" if not bad else f"not forwarded: {bad} -- the rebuilt collection loses this metadata after persist/optimize")
         pp = ci.own_methods.get("__dask_postpersist__")
-        ok = pp is not None and any(unparse(r.value) == "(self._rebuild, ())" for r in returns(pp))
+        ok = pp is not None and (all(unparse(r.value) == "(self._rebuild, ())" for r in returns(pp)) and bool(returns(pp)))
         ctx.ob("REBUILD.postpersist", pp or ci.node, f"{cname}.__dask_postpersist__ returns (self._rebuild, ())", ok)
     ctx.count("rebuild_constructor_calls", n_rb)
     ctx.floor("rebuild_constructor_calls", 3)
